@@ -8,6 +8,7 @@
 -/
 import SkyllhModel.Model.Load
 import SkyllhModel.Proofs.Load
+import SkyllhModel.Proofs.LoadRename
 import SkyllhModel.Generated.C17
 import Mathlib.Tactic
 
@@ -630,18 +631,25 @@ theorem c17_rename_collision_is_error (a : Arr N D V) (o r : N) (col other : Col
   have : r ∈ rest.map (·.name) := List.mem_map.mpr ⟨other, hother, hname⟩
   simp [renameFields, renameGo, hstale, hpop, this]
 
-/-- the full renaming statement for arbitrary non-chaining dictionaries (proved for one entry in
-`c17_rename_single`; compared with the implementation by the correspondence check) -/
-def c17_rename_all_statement : Prop :=
-  ∀ (N D V : Type) [DecidableEq N] [DecidableEq D] (ren : List (N × N)) (a : Arr N D V),
-    (ren.map (·.1)).Nodup → (ren.map (·.2)).Nodup → (a.cols.map (·.name)).Nodup →
-    (∀ p ∈ ren, ∀ q ∈ ren, p.2 ≠ q.1) → (∀ p ∈ ren, p.2 ∉ a.cols.map (·.name)) →
-    ∃ a', renameFields ren a = .ok a' ∧
-      ∀ col ∈ a.cols, { col with name := (ren.lookup col.name).getD col.name } ∈ a'.cols
+/-- **Renaming, any dictionary that does not chain.**  Keys distinct, new names distinct, no new
+name is also a key, field names distinct, and the new name of every field that is present is free:
+`rename_fields` succeeds, keeps the length, and the fields of the result are exactly the fields of
+the array, each under its new name (`dict.get(name, name)`), with unchanged dtype and content —
+nothing lost, nothing duplicated, nothing else added. -/
+theorem c17_rename_all (ren : List (N × N)) (a : Arr N D V)
+    (hk : (ren.map (·.1)).Nodup) (hv : (ren.map (·.2)).Nodup) (hn : (a.cols.map (·.name)).Nodup)
+    (hchain : ∀ p ∈ ren, ∀ q ∈ ren, p.2 ≠ q.1)
+    (hfree : ∀ p ∈ ren, p.1 ∈ a.cols.map (·.name) → p.2 ∉ a.cols.map (·.name)) :
+    ∃ a', renameFields ren a = .ok a' ∧ a'.len = a.len ∧ (a'.cols.map (·.name)).Nodup ∧
+      ∀ c', c' ∈ a'.cols ↔
+        ∃ col ∈ a.cols, c' = { col with name := (ren.lookup col.name).getD col.name } := by
+  obtain ⟨cols', hgo, hnd', hchar⟩ := renameGo_spec (a.cols.map (·.name)) ren a.cols hk hv hn hchain
+    (fun _ _ => Iff.rfl) hfree
+  exact ⟨{ a with cols := cols' }, by simp [renameFields, hgo], rfl, hnd', hchar⟩
 
-theorem c17_rename_all_partial (a : Arr N D V) :
-    renameFields ([] : List (N × N)) a = .ok a := by
-  simp [renameFields, renameGo]
+/-- non-vacuity: a two-entry dictionary on a three-field array -/
+example : renameFields [(0, 5), (1, 6)] (⟨[⟨0, 0, [1]⟩, ⟨1, 0, [2]⟩, ⟨2, 0, [3]⟩], 1⟩ : Arr Nat Nat Nat) =
+    .ok ⟨[⟨2, 0, [3]⟩, ⟨5, 0, [1]⟩, ⟨6, 0, [2]⟩], 1⟩ := by decide
 
 /-! ### required fields after preparation -/
 
@@ -853,6 +861,194 @@ theorem c17_in_place_merge_leaks :
   decide
 
 end dataset
+
+/-! ### end to end: load, rename, prepare (identity), tidy up, assert — no spurious error, content -/
+
+section endtoend
+set_option linter.unusedSectionVars false
+set_option linter.unusedSimpArgs false
+variable {N D V P : Type} [DecidableEq N] [DecidableEq D]
+variable (castCopy castAssign : D → D → V → Except Err V) (cast : D → D → V → V) (promote : D → D → D)
+
+/-- the file field that carries the (new) name `r`: `_conv_new2orig_field_names` on one name -/
+def C17.origOf (ren : List (N × N)) (r : N) : N :=
+  match invLookup ren r with
+  | some o => o
+  | none => r
+
+theorem C17.new2orig_eq_map (ren : List (N × N)) (names : List N) :
+    new2orig ren names = names.map (C17.origOf ren) := rfl
+
+theorem C17.invLookup_some_mem (ren : List (N × N)) (r o : N) (h : invLookup ren r = some o) :
+    (o, r) ∈ ren := by
+  unfold invLookup at h
+  cases hf : List.find? (fun p => decide (p.2 = r)) ren.reverse with
+  | none => simp [hf] at h
+  | some p =>
+    simp only [hf, Option.map_some, Option.some.injEq] at h
+    have hp := List.find?_some hf
+    have hm := List.mem_of_find?_eq_some hf
+    simp only [decide_eq_true_eq] at hp
+    have : p = (o, r) := by
+      cases p; simp_all
+    rw [← this]
+    exact List.mem_reverse.mp hm
+
+theorem C17.lookup_of_mem (ren : List (N × N)) (o r : N) (h : (o, r) ∈ ren) (hk : (ren.map (·.1)).Nodup) :
+    ren.lookup o = some r := by
+  induction ren with
+  | nil => simp at h
+  | cons p ps ih =>
+    obtain ⟨a, b⟩ := p
+    simp only [List.map_cons, List.nodup_cons] at hk
+    rcases List.mem_cons.mp h with heq | hin
+    · cases heq
+      simp [List.lookup_cons]
+    · have hne : o ≠ a := fun e => hk.1 (List.mem_map.mpr ⟨(o, r), hin, e⟩)
+      have hb : (o == a) = false := by simpa using hne
+      simp [List.lookup_cons, hb, ih hin hk.2]
+
+/-- the field loaded under its original name gets the requested name back -/
+theorem C17.rename_origOf (ren : List (N × N)) (r : N) (hk : (ren.map (·.1)).Nodup)
+    (hr : r ∉ ren.map (·.1)) :
+    (ren.lookup (C17.origOf ren r)).getD (C17.origOf ren r) = r := by
+  unfold C17.origOf
+  cases hinv : invLookup ren r with
+  | some o =>
+    have := C17.lookup_of_mem ren o r (C17.invLookup_some_mem ren r o hinv) hk
+    simp [this]
+  | none =>
+    have : ren.lookup r = none :=
+      lookup_none_of_not_key ren r (fun p hp e => hr (List.mem_map.mpr ⟨p, hp, e⟩))
+    simp [this]
+
+/-- a kept field of the schema is in the field loop's selection -/
+theorem C17.mem_selectedFrom (o : Opts N D) (k : Nat) (sch : List (N × D)) (i : Nat) (f : N) (dt : D)
+    (h : sch[i]? = some (f, dt)) (hkept : isKept o.keep f = true) :
+    (k + i, f, dt, targetDt o.conv o.exc f dt) ∈ selectedFrom o k sch := by
+  induction sch generalizing k i with
+  | nil => simp at h
+  | cons fd rest ih =>
+    obtain ⟨g, d⟩ := fd
+    cases i with
+    | zero =>
+      simp only [List.getElem?_cons_zero, Option.some.injEq, Prod.mk.injEq] at h
+      obtain ⟨rfl, rfl⟩ := h
+      simp [selectedFrom, hkept]
+    | succ i =>
+      simp only [List.getElem?_cons_succ] at h
+      have := ih (k + 1) i h
+      have hidx : k + 1 + i = k + (i + 1) := by omega
+      rw [hidx] at this
+      by_cases hg : isKept o.keep g = true
+      · simp [selectedFrom, hg, this]
+      · simp [selectedFrom, hg, this]
+
+/-- **End to end** for the experimental data of a data set whose files are npy files of one layout
+`sch`.  The renaming dictionary does not chain, no new name is a file field, and every field
+required for the analysis stage is neither renamed away nor absent from the files (under its
+original name).  Then `load_and_prepare_data` (identity preparation)
+* returns — **no spurious error**, in either efficiency mode;
+* and for every required or requested name `r` that is not renamed away, whose original name
+  `origOf r` is field `i` of the files with dtype `dt`: the result holds the field `r` with the
+  dtype `targetDt` (exception list translated to original names) and, as content, cell `i` of
+  **every row of every listed file, once, in file order**, converted.
+This unfolds the keep-field computation through the inverted dictionary, the loader, the renaming
+loop, the tidy-up and the final assertion. -/
+theorem c17_end_to_end (mode : Mode) (fs : P → Option (File N D V)) (bs : Nat) (hbs : 0 < bs)
+    (st : Stages) (c : DsCfg N D) (sch : List (N × D)) (first : P × File N D V) (rest : List (P × File N D V))
+    (hnd : (sch.map (·.1)).Nodup) (hcast : ∀ d v, cast d d v = v) (hprom : ∀ d, promote d d = d)
+    (hfiles : ∀ qf ∈ first :: rest, C17.GoodFile castCopy castAssign cast fs
+      ⟨some (keepExp st c), c.conv, excOrig c.expRen c.exc⟩ sch qf)
+    (h1 : (c.expRen.map (·.1)).Nodup) (h2 : (c.expRen.map (·.2)).Nodup)
+    (h3 : ∀ p ∈ c.expRen, ∀ q ∈ c.expRen, p.2 ≠ q.1) (h4 : ∀ p ∈ c.expRen, p.2 ∉ sch.map (·.1))
+    (hreq : ∀ r ∈ jointNames c.merged st.anExp,
+      r ∉ c.expRen.map (·.1) ∧ C17.origOf c.expRen r ∈ sch.map (·.1)) :
+    ∃ a, loadAndPrepare st (npyLoad castCopy castAssign cast promote mode fs bs) (fun d => .ok d) c
+          ((first :: rest).map (·.1)) [] true = .ok (some a, none) ∧
+      ∀ r, (r ∈ jointNames c.merged st.anExp ∨ r ∈ c.keep) → r ∉ c.expRen.map (·.1) →
+        ∀ i dt, sch[i]? = some (C17.origOf c.expRen r, dt) →
+          ({ name := r, dt := targetDt c.conv (excOrig c.expRen c.exc) (C17.origOf c.expRen r) dt,
+             cells := (colT ((first :: rest).map (·.2.rows)).flatten i).map
+               (cast dt (targetDt c.conv (excOrig c.expRen c.exc) (C17.origOf c.expRen r) dt)) } : Col N D V)
+            ∈ a.cols := by
+  -- the loader
+  let o : Opts N D := ⟨some (keepExp st c), c.conv, excOrig c.expRen c.exc⟩
+  let rows := ((first :: rest).map (·.2.rows)).flatten
+  have hload := c17_rows_once_in_order castCopy castAssign cast promote mode fs bs hbs o sch first rest
+    hnd hcast hprom hfiles
+  -- the loaded field names are distinct file fields
+  have hnames : (specArr cast o ⟨sch, rows⟩).cols.map (·.name) =
+      (sch.map (·.1)).filter (fun n => isKept o.keep n) := by
+    simp only [specArr, specCols, selected, List.map_map]
+    exact selectedFrom_names o 0 sch
+  have hnamesnd : ((specArr cast o ⟨sch, rows⟩).cols.map (·.name)).Nodup := by
+    rw [hnames]; exact hnd.filter _
+  have hsubnames : ∀ n, n ∈ (specArr cast o ⟨sch, rows⟩).cols.map (·.name) → n ∈ sch.map (·.1) := by
+    intro n hn; rw [hnames] at hn; exact (List.mem_filter.mp hn).1
+  -- the renaming loop
+  obtain ⟨a', hren, _, _, hchar⟩ := c17_rename_all c.expRen (specArr cast o ⟨sch, rows⟩) h1 h2 hnamesnd h3
+    (fun p hp _ hcon => h4 p hp (hsubnames _ hcon))
+  -- every wanted name is present after renaming
+  have hpresent : ∀ r, (r ∈ jointNames c.merged st.anExp ∨ r ∈ c.keep) → r ∉ c.expRen.map (·.1) →
+      ∀ i dt, sch[i]? = some (C17.origOf c.expRen r, dt) →
+        ({ name := r, dt := targetDt c.conv (excOrig c.expRen c.exc) (C17.origOf c.expRen r) dt,
+           cells := (colT rows i).map
+             (cast dt (targetDt c.conv (excOrig c.expRen c.exc) (C17.origOf c.expRen r) dt)) } : Col N D V)
+          ∈ a'.cols := by
+    intro r hr hnk i dt hi
+    have hkeep : C17.origOf c.expRen r ∈ keepExp st c := by
+      unfold keepExp
+      rw [C17.new2orig_eq_map]
+      refine List.mem_map.mpr ⟨r, ?_, rfl⟩
+      rcases hr with h | h
+      · apply List.mem_append_left
+        rw [c17_jointNames_mem] at h ⊢
+        obtain ⟨s, hs, hbit⟩ := h
+        refine ⟨s, hs, ?_⟩
+        intro hz
+        have := c17_orCheck_or s st.dpExp st.anExp
+        simp only [orCheck, hz, bne_self_eq_false] at this
+        have h2' : (s &&& st.anExp != 0) = true := by simpa using hbit
+        simp [h2'] at this
+      · exact List.mem_append_right _ h
+    have hkept : isKept o.keep (C17.origOf c.expRen r) = true := by
+      simp [o, isKept, hkeep]
+    have hsel := C17.mem_selectedFrom o 0 sch i _ dt hi hkept
+    simp only [Nat.zero_add] at hsel
+    rw [hchar]
+    refine ⟨⟨C17.origOf c.expRen r, targetDt o.conv o.exc (C17.origOf c.expRen r) dt,
+      (colT rows i).map (cast dt (targetDt o.conv o.exc (C17.origOf c.expRen r) dt))⟩, ?_, ?_⟩
+    · simp only [specArr, specCols, selected, List.mem_map]
+      exact ⟨_, hsel, rfl⟩
+    · simp [C17.rename_origOf c.expRen r h1 hnk, o]
+  -- tidy-up keeps them, the assertion passes
+  have hreqnames : ∀ r ∈ jointNames c.merged st.anExp,
+      r ∈ (tidyUp (jointNames c.merged st.anExp ++ c.keep) a').cols.map (·.name) := by
+    intro r hr
+    obtain ⟨hnk, horig⟩ := hreq r hr
+    obtain ⟨⟨f, dt⟩, hfm, hfn⟩ := List.mem_map.mp horig
+    obtain ⟨i, hi⟩ := List.getElem?_of_mem hfm
+    simp only at hfn
+    subst hfn
+    have := hpresent r (Or.inl hr) hnk i dt hi
+    simp only [tidyUp, List.mem_map, List.mem_filter, decide_eq_true_eq]
+    exact ⟨_, ⟨this, List.mem_append_left _ hr⟩, rfl⟩
+  have hmiss : missingKeys ((tidyUp (jointNames c.merged st.anExp ++ c.keep) a').cols.map (·.name))
+      (jointNames c.merged st.anExp) = [] := by
+    rw [C17.missing_nil_iff]; exact hreqnames
+  refine ⟨tidyUp (jointNames c.merged st.anExp ++ c.keep) a', ?_, ?_⟩
+  · simp [loadAndPrepare, loadAndPrepareWith, loadData, loadPart, o, rows] at hload hren ⊢
+    simp [hload, hren, tidyOpt, assertFormat, hmiss]
+  · intro r hr hnk i dt hi
+    have := hpresent r hr hnk i dt hi
+    simp only [tidyUp, List.mem_filter, decide_eq_true_eq]
+    refine ⟨this, ?_⟩
+    rcases hr with h | h
+    · exact List.mem_append_left _ h
+    · exact List.mem_append_right _ h
+
+end endtoend
 
 /-! ### non-vacuity: concrete inputs meeting the hypotheses -/
 
